@@ -55,6 +55,7 @@ static size_t vf_nlive = 0;
 static unsigned long long vf_nreq = 0;
 static char vf_plan[4096]; static size_t vf_plan_len = 0, vf_plan_pos = 0;
 static unsigned long long vf_limit = 1ULL << 40;
+static size_t VF_MAXOUT = 4u << 20;   /* set per trace by the parent: 1 MB + 4 KB per input line (observations grow with the container) */
 static int vf_poison = 1;   /* fill fresh malloc memory with 0xAB so that uninitialised reads show */
 
 static void vf_die(const char *why) {
@@ -152,7 +153,7 @@ int main(int argc, char **argv) {
         if (nl == capl) { capl = capl ? capl * 2 : 1024; lines = (realloc)(lines, capl * sizeof *lines); }
         lines[nl++] = strdup(buf);
     }
-    size_t i = 0;
+    size_t i = 0; int runaways = 0;
     while (i < nl) {
         if (strncmp(lines[i], "T ", 2)) { i++; continue; }
         size_t j = i + 1;
@@ -163,9 +164,13 @@ int main(int argc, char **argv) {
         pid_t pid = fork();
         if (pid == 0) {
             close(pfd[0]); dup2(pfd[1], 2); close(pfd[1]);
-            alarm(20);
+            VF_MAXOUT = ((size_t)1 << 20) + 4096 * (j - i);
+            alarm(600);   /* runaway guard only: legitimate thorough-tier traces take up to tens of seconds on a loaded machine */
             vf_run_child(lines + i, j - i);
             fflush(stdout);
+#ifdef VF_COVERAGE
+            { extern void __gcov_dump(void); __gcov_dump(); }   /* tools/coverage.py: children leave through _exit */
+#endif
             _exit(0);
         }
         close(pfd[1]);
@@ -175,7 +180,8 @@ int main(int argc, char **argv) {
         int st = 0; waitpid(pid, &st, 0);
         if (!(WIFEXITED(st) && WEXITSTATUS(st) == 0)) {
             char kind[160] = "unknown"; char *e;
-            if ((e = strstr(err, "ERROR: AddressSanitizer: "))) sscanf(e + 25, "%63[a-zA-Z0-9-]", kind), memmove(kind + 5, kind, strlen(kind) + 1), memcpy(kind, "asan:", 5);
+            if ((e = strstr(err, "ERROR: Harness: "))) { snprintf(kind, sizeof kind, "harness:%.100s", e + 16); for (char *c = kind; *c; c++) if (*c == '\n') { *c = 0; break; } else if (*c == ' ') *c = '_'; }
+            else if ((e = strstr(err, "ERROR: AddressSanitizer: "))) sscanf(e + 25, "%63[a-zA-Z0-9-]", kind), memmove(kind + 5, kind, strlen(kind) + 1), memcpy(kind, "asan:", 5);
             else if ((e = strstr(err, "runtime error: "))) { snprintf(kind, sizeof kind, "ubsan:%.100s", e + 15); for (char *c = kind; *c; c++) if (*c == '\n') { *c = 0; break; } else if (*c == ' ') *c = '_'; }
             else if ((e = strstr(err, "ERROR: Harness: "))) { snprintf(kind, sizeof kind, "harness:%.100s", e + 16); for (char *c = kind; *c; c++) if (*c == '\n') { *c = 0; break; } else if (*c == ' ') *c = '_'; }
             else if (WIFSIGNALED(st)) snprintf(kind, sizeof kind, "signal:%d", WTERMSIG(st));
@@ -183,6 +189,7 @@ int main(int argc, char **argv) {
             char frame[128] = ""; char *f = strstr(err, " in cc_");
             if (f) sscanf(f + 4, "%100[a-zA-Z0-9_]", frame);
             printf("\nCRASH %s %s\n", kind, frame);
+            if (strstr(kind, "output-limit") && ++runaways >= 40) { fflush(stdout); break; }   /* a broken container makes every observation run away: enough evidence, bounded output */
         }
         fflush(stdout);
         i = j;
@@ -192,7 +199,6 @@ int main(int argc, char **argv) {
 
 /* A corrupted container can make an observation loop run away (e.g. a size field that underflowed): cap the
  * output of one trace; beyond the cap the child aborts and the parent reports CRASH harness:output-limit. */
-#define VF_MAXOUT (4u << 20)
 static size_t vf_out_bytes = 0;
 #define printf(...) do { int vf_n_ = fprintf(stdout, __VA_ARGS__); if (vf_n_ > 0) vf_out_bytes += (size_t)vf_n_; \
                          if (vf_out_bytes > VF_MAXOUT) vf_die("output-limit: runaway observation"); } while (0)
